@@ -77,6 +77,7 @@ def judge(prog: primgen.Program, version: int, counters: Dict[str, Any]) -> List
         text = str(reader).splitlines()[0][:90] if str(reader) else ''
         if len(counters['possible_but_rejected_messages']) < 6 and text not in counters['possible_but_rejected_messages']:
             counters['possible_but_rejected_messages'].append(text)
+        # (the model does not place the wflip auxiliary ops and does not bound every operand: over-rejection is counted only)
         return []
 
     def word(a: int) -> Optional[int]:
